@@ -30,6 +30,15 @@ PROGRAMS = [
   ('imports', '@Engine("sqlite");\nimport m1.Pub;\nimport d.m2.Pub as Pub2;\nT(x) :- Pub(x) | Pub2(x);\n', ['T'], 'imports'),
   ('psql_typed', '@Engine("psql");\nA(1, "a"); A(2, "b");\nP(x, l? List= s) distinct :- A(x, s);\nT(x, n, r) :- P(x, l:), n == Size(l), r == {a: x, b: l};\n', ['T', 'P'], None),
   ('duckdb_rec', '@Engine("duckdb");\nE(1, 2); E(2, 3);\nT(x, y) distinct :- E(x, y);\nT(x, z) distinct :- E(x, y), T(y, z);\nN(0) distinct;\nN(x + 1) distinct :- N(x), x < 5;\n@Recursive(N, -1);\n', ['T', 'N'], None),
+  ('duckdb_diamond_ties', '@Engine("duckdb");\nE(1, 2); E(2, 3); E(3, 1);\nAlpha(x) distinct :- E(x, y);\nAlpha(x) distinct :- Beta(x) | Gamma(x) | Delta(x) | Eps(x);\n'
+   'Beta(y) distinct :- Alpha(x), E(x, y), ~Gamma(y);\nGamma(y) distinct :- Alpha(x), E(y, x) | Beta(y), E(y, y);\nDelta(y) distinct :- Alpha(x), E(x, y), Eps(x);\nEps(y) distinct :- Alpha(y), E(y, x) | Delta(y);\n'
+   'T(x) :- Alpha(x), Beta(x) | Gamma(x), Delta(x) | Eps(x);\n', ['T', 'Gamma'], None),
+  ('mix_bigquery', '@Engine("bigquery");\nA(3, 2, [1, 2]);\nT(Greatest(x, y), Least(x, y), Log(x), ToString(x), Size(l), Element(l, 0), ToInt64("1"), Abs(x - y), Sqrt(x), Floor(x / y), Exp(y)) :- A(x, y, l);\nS(x, c? Count= y, m? Max= y, g? List= y) distinct :- A(x, y, l);\n', ['T', 'S'], None),
+  ('mix_sqlite', '@Engine("sqlite");\nA(3, 2, [1, 2]);\nT(Greatest(x, y), Least(x, y), Log(x), ToString(x), Size(l), Element(l, 0), ToInt64("1"), Abs(x - y), Sqrt(x), Floor(x / y), Exp(y)) :- A(x, y, l);\nS(x, c? Count= y, m? Max= y, g? List= y) distinct :- A(x, y, l);\n', ['T', 'S'], None),
+  ('mix_psql', '@Engine("psql");\nA(3, 2, [1, 2]);\nT(Greatest(x, y), Least(x, y), Log(x), ToString(x), Size(l), Element(l, 0), ToInt64("1"), Abs(x - y), Sqrt(x), Floor(x / y), Exp(y)) :- A(x, y, l);\nS(x, c? Count= y, m? Max= y, g? List= y) distinct :- A(x, y, l);\n', ['T', 'S'], None),
+  ('mix_duckdb', '@Engine("duckdb");\nA(3, 2, [1, 2]);\nT(Greatest(x, y), Least(x, y), Log(x), ToString(x), Size(l), Element(l, 0), ToInt64("1"), Abs(x - y), Sqrt(x), Floor(x / y), Exp(y)) :- A(x, y, l);\nS(x, c? Count= y, m? Max= y, g? List= y) distinct :- A(x, y, l);\n', ['T', 'S'], None),
+  ('mix_trino', '@Engine("trino");\nA(3, 2, [1, 2]);\nT(Greatest(x, y), Least(x, y), Log(x), ToString(x), Size(l), Element(l, 0), ToInt64("1"), Abs(x - y), Sqrt(x), Floor(x / y), Exp(y)) :- A(x, y, l);\nS(x, c? Count= y, m? Max= y, g? List= y) distinct :- A(x, y, l);\n', ['T', 'S'], None),
+  ('mix_clickhouse', '@Engine("clickhouse");\nA(3, 2, [1, 2]);\nT(Greatest(x, y), Least(x, y), Log(x), ToString(x), Size(l), Element(l, 0), ToInt64("1"), Abs(x - y), Sqrt(x), Floor(x / y), Exp(y)) :- A(x, y, l);\nS(x, c? Count= y, m? Max= y, g? List= y) distinct :- A(x, y, l);\n', ['T', 'S'], None),
   ('flags', '@Engine("sqlite");\n@DefineFlag("who", "world");\n@DefineFlag("greeting", "hello ${who}");\nT(FlagValue("greeting"), "${who}!");\n', ['T'], None),
   ('incantation', '@Engine("sqlite");\n# ' + INCANT + '\nF(x) = x + 1;\nT(y) :- y == 2 * F(1);\n', ['T'], None),
   ('fun_sensitive', '@Engine("sqlite");\nF(x) = x + 1;\nT(y) :- y == 2*F(1);\nU(x ---y) :- x == 1, y == 2 | x == 2, y == 1;\n', ['T', 'U'], None),
@@ -160,8 +169,12 @@ def run_op(op):
   raise ValueError(op)
 
 
+QUICK_SKIP = {'mix_trino', 'mix_clickhouse', 'rec_flat', 'bigquery', 'duckdb_rec', 'ground'}
+_QUICK = [False]
+
+
 def all_ops():
-  return [(k, i) for i in range(len(PROGRAMS)) for k in ('P', 'C', 'R')]
+  return [(k, i) for i in range(len(PROGRAMS)) for k in ('P', 'C', 'R') if not (_QUICK[0] and PROGRAMS[i][0] in QUICK_SKIP)]
 
 
 def expected_obs(op, base):
@@ -231,12 +244,13 @@ def plan(ctx):
   global _BASE
   impl.setup(ctx.repo)
   scratch()
+  _QUICK[0] = not ctx.thorough
   _BASE = baseline(ctx.workers)
   json.dump(_BASE, open(os.path.join(scratch(), 'base.json'), 'w'))
   ops = all_ops()
   # quick: first operation ranges over the parse+compile operations (P and R are made of the same calls); thorough: over all
   tasks = [('hist', [list(op)], not ctx.thorough, ctx.seed) for op in ops if ctx.thorough or op[0] == 'C']
-  seeds = list(range(32 if ctx.thorough else 8)) + ['random']
+  seeds = list(range(32 if ctx.thorough else 4)) + ['random']
   corpus = sorted(glob.glob(os.path.join(ctx.repo, 'integration_tests', '*.l')))
   if not ctx.thorough:
     corpus = [f for f in corpus if re.search(r'Recursive|Iteration', open(f).read())]
@@ -269,6 +283,7 @@ def work(task):
 
 def hist_task(task):
   _, prefix, chain, seed = task
+  _QUICK[0] = bool(chain)
   prefix = [tuple(op) for op in prefix]
   base = _BASE['base']
   ops = all_ops()
@@ -301,7 +316,7 @@ def hist_task(task):
     i = 0
     all_ops_here = ops
     if depth_left == 1: ops_l = [o for o in all_ops_here if o[0] == 'C']    # quick tier: third level over parse+compile operations only
-    else: ops_l = all_ops_here
+    else: ops_l = [o for o in all_ops_here if o[0] != 'P' or PROGRAMS[o[1]][0] in ('incantation', 'fun_sensitive')]   # second level: C and R (P is the first half of C)
     while i < len(ops_l):
       def f(start=i):
         out = []; ran = []
@@ -312,10 +327,14 @@ def hist_task(task):
           out.append(entry)
           if h != h_here:
             entry[3] = diff_states(st_here, st)
-            if depth_left > 1 and h not in known_states: entry[4] = explore_from(hist + ran, depth_left - 1, st)
+            if depth_left > 1 and h not in known_states:
+              entry[4] = explore_from(hist + ran, depth_left - 1, st)
+              entry.append(h)          # tell the holder: all successors of state h are now explored
             return [out, j + 1]
         return [out, len(ops_l)]
       out, nxt = child(f); res.extend(out); i = nxt
+      for e in out:
+        if len(e) > 6: known_states.add(e[6])
     return res
   def hash_of(st): return hashlib.sha1(json.dumps(st, sort_keys=True).encode()).hexdigest()[:16]
   def run_prefix():
@@ -324,7 +343,8 @@ def hist_task(task):
     return [h, explore_from(list(prefix), 2, st)]
   h1, tree = child(run_prefix)
   def walk(hist, tree):
-    for op, o, h, changed, deeper, ran in tree:
+    for entry in tree:
+      op, o, h, changed, deeper, ran = entry[:6]
       op = tuple(op); hist0 = hist; hist = hist0 + [tuple(x) for x in ran]; stats['transitions'] += 1; stats['comparisons'] += 1; stats['histories'] += 1
       states.add(h)
       exp = expected_obs(op, base)
@@ -440,7 +460,7 @@ def coverage(ctx, merged):
     operations=len(all_ops()), programs=len(PROGRAMS), histories=s.get('histories', 0), histories_beyond_pairs=s.get('deep_histories', 0),
     hash_seeds=len(k.get('seeds', ())), seed_processes=s.get('seed_processes', 0), seed_compiles=s.get('seed_compiles', 0),
     distinct_set_iteration_orders_of_probe=len(k.get('probe_orders', ())),
-    bounds=dict(history_depth='2 exhaustive (quick: first operation over the 13 parse+compile operations), 3 through new states', seeds='0..%d + random' % (31 if ctx.thorough else 7)), cap_hit=False)
+    bounds=dict(history_depth='2 exhaustive (quick: first operation over the 13 parse+compile operations), 3 through new states', seeds='0..%d + random' % (31 if ctx.thorough else 3)), cap_hit=False)
 
 
 def replay(ctx, case):
